@@ -10,6 +10,7 @@ import (
 	"sort"
 	"strings"
 
+	"github.com/kstenerud/go-concise-encoding/builder"
 	"github.com/kstenerud/go-concise-encoding/ce"
 	"github.com/kstenerud/go-concise-encoding/ce/events"
 	"github.com/kstenerud/go-concise-encoding/configuration"
@@ -186,3 +187,8 @@ func sortNodes(k []*ev.Node) {
 
 func newCBEDecoder(cfg *configuration.Configuration) ce.Decoder { return ce.NewCBEDecoder(cfg) }
 func newCTEDecoder(cfg *configuration.Configuration) ce.Decoder { return ce.NewCTEDecoder(cfg) }
+
+// newUntypedBuilder returns the library's builder event receiver for an untyped (interface{}) destination.
+func newUntypedBuilder(cfg *configuration.Configuration) events.DataEventReceiver {
+	return builder.NewSession(nil, cfg).NewBuilderFor(nil)
+}
